@@ -5,6 +5,7 @@ import (
 	"fmt"
 	"io"
 	"os"
+	"path/filepath"
 
 	"github.com/go-git/go-billy/v5"
 	"github.com/go-git/go-billy/v5/util"
@@ -106,5 +107,34 @@ func (pc *PersistedClock) read() error {
 
 func (pc *PersistedClock) Write() error {
 	data := []byte(fmt.Sprintf("%d", pc.counter))
-	return util.WriteFile(pc.root, pc.filePath, data, 0644)
+
+	// Write a temporary file and rename it over the clock: truncating the clock in place leaves,
+	// when the process dies in between, an empty file (the repository can't be opened anymore)
+	// or the first digits only (the clock silently goes back). The temporary file lives next to
+	// the clocks directory, which only holds clocks.
+	tmp, err := util.TempFile(pc.root, "", "clock-")
+	if err != nil {
+		return err
+	}
+	_, err = tmp.Write(data)
+	if err != nil {
+		_ = tmp.Close()
+		_ = pc.root.Remove(tmp.Name())
+		return err
+	}
+	err = tmp.Close()
+	if err != nil {
+		_ = pc.root.Remove(tmp.Name())
+		return err
+	}
+	err = pc.root.MkdirAll(filepath.Dir(pc.filePath), 0755)
+	if err != nil {
+		_ = pc.root.Remove(tmp.Name())
+		return err
+	}
+	err = pc.root.Rename(tmp.Name(), pc.filePath)
+	if err != nil {
+		_ = pc.root.Remove(tmp.Name())
+	}
+	return err
 }
